@@ -55,7 +55,9 @@ def canon(op, out):
     if out in ('UNSUPPORTED', 'BADINPUT', 'CRASH', 'TIMEOUT'): return [out]
     t = out.split()
     res = []
-    if t[0] in ('OK', 'SOME'): res.append(1); t = t[1:]
+    if t[0] in ('OK', 'SOME'):
+        if op not in BYTES_RES: res.append(1)     # el.ser/af.ser: infallible writers, the model returns the bytes
+        t = t[1:]
     elif t[0] == 'ERR': return [0, ERRCODE.get(t[1], 99)]
     elif t[0] == 'NONE': return [0]
     for tok in t:
